@@ -236,7 +236,8 @@ def run_batch(pid, tier, verif_seed, nruns, nworkers, max_wall):
             agg["harness_errors"].append({"run_seed": slot["first"]["run_seed"], "error": f"{sig}: {err}"})
             continue
         lines.append(f"VIOLATION property={pid} replay={path}")
-        lines.append(f"  signature={sig} hits={slot['count']} detail={json.dumps(slot['first']['verdict']['violations'][0]['detail'], default=str)[:300]}")
+        detail = next((x["detail"] for x in slot["first"]["verdict"]["violations"] if x["signature"] == sig), None)
+        lines.append(f"  signature={sig} hits={slot['count']} detail={json.dumps(detail, default=str)[:300]}")
         rc = 1
     for sig, slot in unlisted[6:]:
         lines.append(f"VIOLATION property={pid} replay=(not minimised) signature={sig} hits={slot['count']} run_seed={slot['first']['run_seed']}")
